@@ -40,3 +40,71 @@ class CompletingModel(core.Model):
 
 def score_trace(model):
     return {'log': list(model.log), 'timestep': model.systems.timestep, 'running': model.is_running()}
+
+
+# ---------------------------------------------------------------------------------------------------------------------
+# C15 / C07: self-identifying batch model
+# ---------------------------------------------------------------------------------------------------------------------
+import json as _json
+import os as _os
+import time as _time
+import uuid as _uuid
+
+
+class InjectedFault(Exception):
+    def __init__(self, tag):
+        super().__init__(tag)
+        self.tag = tag
+
+
+def _claim_ordinal(ctl):
+    """Global (cross-process) construction ordinal: first free ord_<n> file in the control directory."""
+    n = 0
+    while True:
+        try:
+            fd = _os.open(_os.path.join(ctl, f'ord_{n}'), _os.O_CREAT | _os.O_EXCL | _os.O_WRONLY)
+            _os.close(fd)
+            return n
+        except FileExistsError:
+            n += 1
+
+
+class _Work(core.System):
+    def execute(self):
+        m = self.model
+        t = m.systems.timestep
+        if m.delay:
+            _time.sleep(m.delay)
+        if m.fault and m.fault.get('kind') == 'step' and m.fault['ordinal'] == m.ordinal and m.fault['t'] == t:
+            raise InjectedFault(m.fault['tag'])
+        if t == m.stop:
+            m.complete()
+
+
+class _Ident(collectors.Collector):
+    def collect(self):
+        m = self.model
+        self.records.append({'uuid': m.run_uuid, 'collector': self.id, 'params': m.params, 't': m.systems.timestep,
+                             'model_t': m.timestep, 'pid': _os.getpid(), 'ordinal': m.ordinal})
+
+
+class VModel(core.Model):
+    """Fresh uuid per construction; stamps every record; completes at `stop`; sleeps a little so completion order varies."""
+    __slots__ = ['run_uuid', 'params', 'ordinal', 'fault', 'delay', 'stop']
+
+    def __init__(self, ctl, stop, **params):
+        super().__init__()
+        self.run_uuid = _uuid.uuid4().hex
+        self.params = dict(params)
+        self.stop = stop
+        self.ordinal = _claim_ordinal(ctl)
+        with open(_os.path.join(ctl, 'control.json')) as f:
+            control = _json.load(f)
+        self.fault = control.get('fault')
+        delays = control.get('delays') or [0]
+        self.delay = delays[self.ordinal % len(delays)]
+        if self.fault and self.fault.get('kind') == 'ctor' and self.fault['ordinal'] == self.ordinal:
+            raise InjectedFault(self.fault['tag'])
+        self.systems.add_system(_Work('work', self))
+        for cid in control['collectors']:
+            self.systems.add_system(_Ident(cid, self))
